@@ -339,6 +339,9 @@ func (s *Sim) run() {
 	if !s.failedNow() && !s.res.Inconclusive {
 		s.replayOracle()
 	}
+	if !s.failedNow() && !s.res.Inconclusive {
+		s.syncOracle()
+	}
 	s.res.SimTimeS = s.now().Seconds()
 	s.res.Steps = s.steps
 	nf := 0
